@@ -182,7 +182,7 @@ fn gen_case(src: &mut Src, st: &mut Stats) -> Value {
                 let a = gen_sentence(src, st, 2).unwrap_or_else(|| "a".into());
                 mutate(&a, "b", src).0
             }
-            _ => "@".into(),
+            _ => src.pick(&["@", "s == 'a b'", "o.\"k k\"", "strs[?@ == 'a b']", "`{\"a b\": 1}`.\"a b\"", "join(' , ', strs)", "'x  y'"]).to_string(),
         }
     } else {
         src.pick(&scalar_exprs).to_string()
@@ -310,7 +310,20 @@ fn features(env: &Env, st: &mut Stats) -> Vec<Failure> {
     for i in 0..n {
         let bytes = seeded_bytes(env.seed, 0xC17_0000 + i as u64, 1200);
         let mut src = Src::new(&bytes);
-        cases.push(gen_case(&mut src, st));
+        let case = gen_case(&mut src, st);
+        // every fourth case is followed by near-duplicates of its expression on the same input
+        // (each driver answers all cases in one process, so anything keyed too coarsely shows)
+        if i % 4 == 0 {
+            let base = case["expr"].as_str().unwrap_or("@").to_string();
+            cases.push(case.clone());
+            for _ in 0..2 {
+                let mut c2 = case.clone();
+                c2["expr"] = json!(crate::syn::near_duplicate(&base, &mut src));
+                cases.push(c2);
+            }
+        } else {
+            cases.push(case);
+        }
     }
     let input: String = cases.iter().map(|c| c.to_string() + "\n").collect();
     let mut outs: Vec<(&str, Vec<String>)> = vec![];
@@ -382,6 +395,7 @@ pub fn property() -> Property {
             "answers are compared as the canonical JSON text of the value, or error class + offset".into(),
             "the `specialized` variants need the nightly toolchain that is installed in this sandbox".into(),
         ],
+        minimise: None,
         subs: vec![Sub::Custom(CustomSub { name: "features", run: features, replay: replay_case })],
     }
 }
